@@ -62,7 +62,7 @@ func (fs *FileSystem) Store(bom *sbom.Document, opts *StoreOptions) error {
 		return fmt.Errorf("the specified filsystem backend patch is not a directory")
 	}
 
-	if bom.Metadata == nil || bom.Metadata.Id == "" {
+	if bom == nil || bom.Metadata == nil || bom.Metadata.Id == "" {
 		return fmt.Errorf("unable to persist document: no document id set")
 	}
 
@@ -81,7 +81,29 @@ func (fs *FileSystem) Store(bom *sbom.Document, opts *StoreOptions) error {
 		return fmt.Errorf("there is already an entry for the specified document (and NoClobber = true)")
 	}
 
-	if err := os.WriteFile(filepath.Join(fs.Options.Path, filename), out, os.FileMode(0o644)); err != nil {
+	// Write the entry to a temporary file in the same directory and move it
+	// into place: the entry is either the previous or the new document, never
+	// a partially written one.
+	tmp, err := os.CreateTemp(fs.Options.Path, filename+".tmp-*")
+	if err != nil {
+		return fmt.Errorf("writing data to disk: %w", err)
+	}
+	tmpName := tmp.Name()
+	if _, err := tmp.Write(out); err != nil {
+		tmp.Close()
+		os.Remove(tmpName)
+		return fmt.Errorf("writing data to disk: %w", err)
+	}
+	if err := tmp.Close(); err != nil {
+		os.Remove(tmpName)
+		return fmt.Errorf("writing data to disk: %w", err)
+	}
+	if err := os.Chmod(tmpName, os.FileMode(0o644)); err != nil {
+		os.Remove(tmpName)
+		return fmt.Errorf("writing data to disk: %w", err)
+	}
+	if err := os.Rename(tmpName, filepath.Join(fs.Options.Path, filename)); err != nil {
+		os.Remove(tmpName)
 		return fmt.Errorf("writing data to disk: %w", err)
 	}
 
